@@ -8,5 +8,6 @@ INVARIANT OnlyAdditions
 INVARIANT Units19
 INVARIANT Emit
 INVARIANT EmitUnits
+INVARIANT EmitFlagMerge
 CONSTRAINT Bound
 CHECK_DEADLOCK FALSE
